@@ -406,6 +406,30 @@ def _store_family_rule(ctx, rep, rule, modname):
     rep.count(f"{cls.name} stored key slots", cnt)
     rep.require(cnt >= len(base_keys) * (1 + 2 * n + 2 * (n - 1)), "store table smaller than the key space")
     if modname == "fee_field":
+        # the unknown flag of each key family is stored in that family's context, independently of the others
+        FV = w.cls(cls.mod.name, "FeeValue")
+        for fam_unknown in ("self", "at", "abs", "rel"):
+            ctx3 = w.new(BTC)
+            fn3 = Obj(FN, _blocks=[bb], _transaction_contexts={bb: ctx3})
+            bc3 = {}
+            for bk in base_keys:
+                bc3[bk] = {bb: w.new(FV, is_unknown=(fam_unknown == "self")) if fam_unknown == "self" else w.new(FV, value=7)}
+                for i in range(n):
+                    bc3[w.call(get_at, i, bk)] = {bb: w.new(FV, is_unknown=True) if fam_unknown == "at" else w.new(FV, value=7)}
+                    bc3[w.call(get_abs, i, bk)] = {bb: w.new(FV, is_unknown=True) if fam_unknown == "abs" else w.new(FV, value=7)}
+                for off in range(-(n - 1), n):
+                    if off:
+                        bc3[w.call(get_rel, off, bk)] = {bb: w.new(FV, is_unknown=True) if fam_unknown == "rel" else w.new(FV, value=7)}
+            _call(ctx, Obj(cls, _function=fn3, _block_contexts=bc3), "_store_results")
+            flags = {"self": w.getattr(ctx3, "max_fee_unknown"), "at": w.getattr(w.call(w.method(ctx3, "gtxn_context"), 3), "max_fee_unknown"),
+                     "abs": w.getattr(w.call(w.method(ctx3, "absolute_context"), 3), "max_fee_unknown"),
+                     "rel": w.getattr(w.call(w.method(ctx3, "relative_context"), -2), "max_fee_unknown")}
+            vals = {"self": w.getattr(ctx3, "max_fee"), "at": w.getattr(w.call(w.method(ctx3, "gtxn_context"), 3), "max_fee"),
+                    "abs": w.getattr(w.call(w.method(ctx3, "absolute_context"), 3), "max_fee"), "rel": w.getattr(w.call(w.method(ctx3, "relative_context"), -2), "max_fee")}
+            want_flags = {k: (k == fam_unknown) for k in flags}
+            ok_vals = all(vals[k] == 7 for k in vals if k != fam_unknown)
+            rep.check(flags == want_flags and ok_vals, rule, f"FeeField store: only the {fam_unknown} family is unknown", where, {"unknown": flags, "values": vals},
+                      {"unknown": want_flags, "known values": 7}, why="the known/unknown flag of one key family is taken from another family")
         # unknown flag
         FV = w.cls(cls.mod.name, "FeeValue")
         ctx2 = w.new(BTC)
